@@ -218,6 +218,52 @@ Example C12_lin_accepts_serial_orders :
 Proof. exact (conj lin_accepts_get_then_free lin_accepts_free_then_get). Qed.
 Print Assumptions C12_lin_accepts_serial_orders.
 
+(** ** No leaked informer (the InformerMap part of the model follows informer_map.go: an informer is
+    started when its entry is added and stopped only by Delete, together with the entry; a Get that
+    times out waiting for the initial sync leaves the entry AND the running informer behind, and it is
+    Cache.Watch's releaseInformer that removes both) *)
+
+(** Every informer ever started is either the map's entry of its kind or stopped: at any time the number
+    of informers of a kind started and not stopped is 1 if the map has an entry and 0 otherwise - for all
+    operation sequences, all outcomes (sync failures included), both models. *)
+Theorem C12_no_leaked_informer :
+  forall fixed handlers ops g,
+    live g (history (exec_with (stepf fixed) (init handlers) ops))
+    = if runningb (runf fixed (init handlers) ops) g then 1%nat else 0%nat.
+Proof. exact no_leaked_informer. Qed.
+Print Assumptions C12_no_leaked_informer.
+
+(** With the first clause: exactly one running informer for a kind somebody references, none otherwise,
+    never two (current cache.go). *)
+Theorem C12_fixed_informers_match_owners :
+  forall handlers ops g,
+    no_delete_failures ops = true ->
+    let s := Cache_fixed.run (init handlers) ops in
+    live g (history (Cache_fixed.exec (init handlers) ops)) = if nilb (owners s g) then 0%nat else 1%nat.
+Proof. exact Cache_fixed_informers_match_owners. Qed.
+Print Assumptions C12_fixed_informers_match_owners.
+
+(** The checks applied to the real InformerMap's observable behaviour (open WATCH streams per kind, event
+    delivery to the handlers) accept what the model of the current cache.go predicts. *)
+Theorem C12_monitor_real_sound_fixed :
+  forall handlers kinds ops,
+    no_delete_failures ops = true ->
+    let steps := real_steps_of true kinds (init handlers) ops in
+    forallb (fun p => real_streams_ok kinds (snd p)) steps = true /\
+    forallb (fun p => real_delivered_ok handlers kinds (snd p)) steps = true.
+Proof. exact monitor_real_sound_fixed. Qed.
+Print Assumptions C12_monitor_real_sound_fixed.
+
+(** ... and reject an informer that survives the roll-back of its failed start. *)
+Example C12_judge_real_rejects_leak :
+  judge_real ([0; 1], [0; 1],
+    [(Watch 0 0 informer_sync_fails, RObs ErrInformerGet [(0, None); (1, None)] [(0, 1); (1, 0)] [(0, []); (1, [])]);
+     (Watch 0 0 ok, RObs ErrNone [(0, Some [0]); (1, None)] [(0, 2); (1, 0)] [(0, [0; 1]); (1, [])]);
+     (Free 0 ok [], RObs ErrNone [(0, None); (1, None)] [(0, 1); (1, 0)] [(0, []); (1, [])])],
+    [(0, 2); (1, 0)]) = (false, false, false, true, false).
+Proof. exact judge_real_rejects_leak. Qed.
+Print Assumptions C12_judge_real_rejects_leak.
+
 (** ** The run-time monitor used on the implementation's observations accepts every behaviour of the
     model of the code as it is on start-failure-free sequences, and every behaviour of the repair
     candidate. *)
